@@ -34,7 +34,7 @@ class EB(BaseException):
         self.id = id
 
 
-class EnterFails(Exception):
+class EnterFails(AttributeError):      # (an AttributeError: the library handles that type itself when it looks up __aexit__)
     pass
 
 
@@ -241,6 +241,8 @@ def run_history(ops, std):
                     obs.append(("error", "enter did not raise"))
                 except EnterFails:
                     obs.append(("done",))
+                except BaseException as e:  # noqa
+                    obs.append(("error", "a failing enter surfaced as %r instead of the manager's own exception" % (e,)))
             elif op[0] == "popall":
                 stacks.append(stacks[op[1]].pop_all())
                 obs.append(("newstack", len(stacks) - 1))
@@ -296,6 +298,8 @@ def cancellation_stage(rep, rng, n):
     def mk_cm(ent, log):
         class CM:
             async def __aenter__(s):
+                await _Tick()             # entering suspends as well (a lock held by someone else): a manager whose
+                log.append(("entered", ent.id))   # enter was interrupted has not been entered and is not exited
                 return ent.id
 
             async def __aexit__(s, et, ev, tb):
@@ -332,7 +336,7 @@ def cancellation_stage(rep, rng, n):
     for _ in range(n):
         ents = [Entry(i + 1, "acm", rng.choice(["falsy", "falsy", "truthy", "raise"]), rng.choice(["falsy", "falsy", "truthy", "raise"])) for i in range(rng.randrange(1, 4))]
         block = rng.choice([None, None, 5])
-        for k in [None] + list(range(len(ents))):
+        for k in [None] + list(range(2 * len(ents))):      # every enter and every exit suspension
             got, want = outcome(via_stack, ents, block, k), outcome(via_nested, ents, block, k)
             rep.count(("cancel-unwind", tuple((e.on_none, e.on_exc) for e in ents), block, k), len(ents) > 1)
             if got != want:
